@@ -54,6 +54,24 @@ class ArgRenamerSrc(CachedIdentityMapper):
         return (type(expr), expr, args)
 
 
+class PlainKwRenamer(IdentityMapper):
+    def map_variable(self, expr, names, suffix="_r"):
+        if expr.name in names:
+            return prim.Variable(expr.name + suffix)
+        return expr
+
+
+class KwRenamerSrc(CachedIdentityMapper):
+    def map_variable(self, expr, names, suffix="_r"):
+        CALLS.append(("kw", expr.name, names, suffix, id(self)))
+        if expr.name in names:
+            return prim.Variable(expr.name + suffix)
+        return expr
+
+    def get_cache_key(self, expr, *args, **kwargs):
+        return (type(expr), expr, args, tuple(sorted(kwargs.items())))
+
+
 OPT_FREE = {}
 OPT_FREE_ERRORS = {}
 for _combo in itertools.product((False, True), repeat=5):
@@ -75,3 +93,15 @@ for _combo in itertools.product((False, True), repeat=3):
             inline_get_cache_key=_ik)(ArgRenamerSrc)
     except Exception as _exc:
         OPT_ARGS_ERRORS[_combo] = _exc
+
+# keyword-passing family: nothing dropped, cache not inlined
+OPT_KW = {}
+OPT_KW_ERRORS = {}
+for _combo in itertools.product((False, True), repeat=2):
+    _ir, _ik = _combo
+    try:
+        OPT_KW[_combo] = optimize_mapper(
+            drop_args=False, drop_kwargs=False, inline_rec=_ir, inline_cache=False,
+            inline_get_cache_key=_ik)(KwRenamerSrc)
+    except Exception as _exc:
+        OPT_KW_ERRORS[_combo] = _exc
